@@ -13,7 +13,7 @@ RULE = ("Cases as in C06 plus: target_param subsets in a generated order, target
         "{None, lsoda, vode, dopri5}, entry point in {sensitivity, gradient, sensitivity(full_output=True), sensitivityIV, jac} "
         "(jac(theta) is compared as a set of columns with the reference sensitivities of the observed states; its layout is "
         "recorded, not judged). In half of the cases 1-2 further calls (sensitivity, gradient, sensitivityIV, cost) follow on the SAME "
-        "loss object at other parameters / initial values (in half of those one block is held fixed: same parameters with other initial values, or the reverse); each must be right at its own point. Models as in C06 incl. catalogue entries and container/dtype forms. Oracle: reference "
+        "loss object at other parameters / initial values (in half of those one block is held fixed: same parameters with other initial values, or the reverse); each must be right at its own point. In a quarter of the cases a second loss object (other parameters, initial state and times) lives on the same model object and computes its gradient before each of our calls. Models as in C06 incl. catalogue entries and container/dtype forms. Oracle: reference "
         "gradient g_k = sum_{i,s} dloss/dyhat_is * dx_s(t_i)/d(free variable k) with dx/dtheta, dx/dx0 from own variational equations on the "
         "abstract model (jets) and dloss/dyhat from mpmath derivatives of the reference log-densities (weights enter for Square and Normal "
         "only), ordered as the free variables were supplied: parameters in target_param order, then initial values in target_state order; "
@@ -55,6 +55,8 @@ def strategy(tier):
                         # the other way round
                         "hold": draw(st.sampled_from(["none", "theta", "theta", "x0"] if iv else ["none", "none", "theta", "x0"]))})
         c["followups"] = fus
+        # a second loss object (another data set) on the same model object, evaluated before each of our calls
+        c["companion"] = draw(st.integers(0, 3)) == 0
         return c
     return case()
 
@@ -192,6 +194,11 @@ def oracle(case, rec):
     if iv and _ambiguous(case, m, names, free):
         raise Inconclusive("ambiguous input length (documented rejection)")
     model, obj = call(key + "/construct", case, lossgen.build, case, y)
+    if case.get("companion"):
+        comp = call(key + "/companion-construct", case, lossgen.companion, case, model)
+        rec.label("companion-loss-object-on-same-model")
+        lossgen.interleave(obj, ["cost", "gradient", "sensitivity", "sensitivityIV", "jac"],
+                           lambda: call(key + "/companion-gradient", case, comp.gradient))
     x0 = list(su["x0"])
     if iv:
         for s in (case["target_state"] or names):
